@@ -33,9 +33,18 @@ KW_NAMES = ["x", "y", "z"]
 
 
 def decode_arg(a):
+    if isinstance(a, dict) and "unhashable" in a:
+        # a legal Python value that cannot be part of a key: the call must
+        # fail before anything is constructed or registered
+        return [1, 2] if a["unhashable"] == "list" else {3, 4}
     if isinstance(a, list):
         return tuple(decode_arg(x) for x in a)
     return a
+
+
+def has_unkeyable(op):
+    js = json.dumps([op.get("args", []), op.get("kwargs", [])])
+    return "unhashable" in js
 
 
 def hash_first(args, kwargs):
@@ -158,6 +167,7 @@ class C17(engine.Property):
         "user-code-during-construction:construct",
         "user-code-during-construction:drop",
         "falsy-instance-class-used",
+        "unkeyable-arguments",
     ]
 
     def make_config(self, rng):
@@ -177,6 +187,7 @@ class C17(engine.Property):
             "p_kwargs": rng.choice([0.0, 0.3, 0.6]),
             "max_args": rng.choice([1, 1, 2, 3]),
             "p_during": rng.choice([0.0, 0.0, 0.15, 0.4]),
+            "p_unkeyable": rng.choice([0.0, 0.0, 0.05, 0.1]),
             "weights": gen.swarm_weights(
                 rng,
                 ["construct", "add_mapping", "drop", "check", "get_all", "clear"],
@@ -188,7 +199,7 @@ class C17(engine.Property):
         return St(cfg)
 
     # -- generation ---------------------------------------------------------------------
-    def _args(self, rng, cfg, st, cls):
+    def _args(self, rng, cfg, st, cls, allow_bad=True):
         # prefer keys already live somewhere (possibly on another class)
         live = []
         for c in cfg["classes"]:
@@ -203,6 +214,12 @@ class C17(engine.Property):
             return args, kwargs
         n = rng.randint(0, cfg["max_args"])
         args = [ARG_POOL[rng.choice(cfg["pool"])] for _ in range(n)]
+        if allow_bad and cls not in ("D", "E") and rng.random() < cfg.get("p_unkeyable", 0.0):
+            bad = {"unhashable": rng.choice(["list", "set"])}
+            if rng.random() < 0.6 or cls in ("D", "E"):
+                args = args + [bad]
+            else:
+                return args, [["x", {"unhashable": "set"}]]
         kwargs = []
         if rng.random() < cfg["p_kwargs"]:
             names = rng.sample(KW_NAMES, rng.randint(1, 3))
@@ -216,9 +233,9 @@ class C17(engine.Property):
         if r < 0.45:
             return {"op": "clear", "cls": rng.choice([outer["cls"], cls])}
         if r < 0.6:
-            args, kwargs = self._args(rng, cfg, st, cls)
+            args, kwargs = self._args(rng, cfg, st, cls, allow_bad=False)
             return {"op": "drop", "cls": cls, "args": args, "kwargs": kwargs}
-        args, kwargs = self._args(rng, cfg, st, cls)
+        args, kwargs = self._args(rng, cfg, st, cls, allow_bad=False)
         return {"op": "construct", "cls": cls, "args": args, "kwargs": kwargs, "new": st.namer.new("i")}
 
     def next_op(self, rng, cfg, st):
@@ -257,10 +274,14 @@ class C17(engine.Property):
             return None, None
         klass = st.classes[cls]
         args, kwargs = call_args(op) if k in ("construct", "check", "drop", "add_mapping") else ((), {})
-        key = model_key(cls, args, kwargs) if k in ("construct", "check", "drop", "add_mapping") else None
+        key = None
+        if k in ("construct", "check", "drop", "add_mapping") and not has_unkeyable(op):
+            key = model_key(cls, args, kwargs)
         s["op:" + k] += 1
         out = {}
         v = None
+        if k in ("construct", "check", "drop", "add_mapping") and has_unkeyable(op):
+            return self._unkeyable(st, op, k, klass, args, kwargs)
         try:
             hash(key)
         except TypeError:
@@ -415,6 +436,38 @@ class C17(engine.Property):
         if v is None:
             v = self._requery(st, op)
         return out, v
+
+    def _unkeyable(self, st, op, k, klass, args, kwargs):
+        """
+        Arguments from which no key can be made (an unhashable positional, a
+        keyword value JSON cannot encode): the call fails -- and must leave
+        every registry as it was, without constructing anything.
+        """
+        s = st.stats
+        s["fault:failing-call"] += 1
+        s["probe:unkeyable-arguments"] += 1
+        before = sum(getattr(o, "init_count", 0) for o in st.inst.values())
+        n_before = {c: len(list(singleton.get_all_semi_singleton_instances(st.classes[c]))) for c in st.cfg["classes"]}
+        try:
+            if k == "construct":
+                klass(*args, **kwargs)
+            elif k == "check":
+                singleton.check_semi_singleton_entry_exists(klass, *args, **kwargs)
+            elif k == "drop":
+                singleton.drop_semi_singleton_mapping(klass, *args, **kwargs)
+            else:
+                singleton.add_mapping(st.inst[op["obj"]], *args, **kwargs)
+            out = {"ret": "returned"}
+        except Exception as exc:  # pylint: disable=broad-except
+            out = {"exc": type(exc).__name__}
+        n_after = {c: len(list(singleton.get_all_semi_singleton_instances(st.classes[c]))) for c in st.cfg["classes"]}
+        if n_after != n_before:
+            return out, engine.viol(
+                "C17/failed-call-changed-a-registry", {"op": op, "before": n_before, "after": n_after}
+            )
+        if sum(getattr(o, "init_count", 0) for o in st.inst.values()) != before:
+            return out, engine.viol("C17/failed-call-ran-init-of-live-instance", {"op": op})
+        return out, self._requery(st, op)
 
     def _nested(self, st, d):
         """Runs inside an __init__: a registry operation, mirrored in the model."""
